@@ -389,6 +389,27 @@ theorem prefix_accepts_first_acceptable (cfg : Cfg) (lid : Nat) (msgs : List Msg
     rw [List.find?_eq_none]; intro x hx; simp [hpre x hx]
   simp [hnone, hacc, ← ha, ← ht]
 
+/-- C24 ("during the active phase"): once the chain clock has reached the end of the active
+    phase, nothing that arrives later — passive phase, next window — influences the result. -/
+theorem passive_phase_ignored (cfg : Cfg) (pre post post' : List Ev) (b : Nat)
+    (hb : activePhaseEndBlock cfg.block ≤ b) :
+    coordinateFollower cfg (pre ++ .clock b :: post) = coordinateFollower cfg (pre ++ .clock b :: post') := by
+  have h : ∀ endB, endB ≤ b → ∀ pre : List Ev,
+      activeMsgs endB (pre ++ .clock b :: post) = activeMsgs endB (pre ++ .clock b :: post') := by
+    intro endB he pre
+    induction pre with
+    | nil => simp [activeMsgs, he]
+    | cons e es ih =>
+      cases e with
+      | msg m => simp [activeMsgs, ih]
+      | clock c => simp only [List.cons_append, activeMsgs]; split <;> simp [ih]
+  simp [coordinateFollower, h _ hb pre]
+
+/-- the active phase is strictly inside the window (T1 tie on the extracted constants) -/
+theorem active_phase_inside_window :
+    0 < Gen.C24.activePhaseDurationBlocks ∧
+      Gen.C24.activePhaseDurationBlocks < Gen.C24.durationBlocks := by decide
+
 /-! ## monitor tie -/
 
 theorem holds_model (cfg : Cfg) (msgs : List Msg) (p : Option (Nat × Nat)) (fs : List Fault)
